@@ -200,6 +200,30 @@ def search(ops: list[list[str]], limit: int = 120, budget_s: float = 25.0):
     return n, None
 
 
+def search_flood(ops: list[list[str]], budget_s: float = 60.0, workers: int = 8):
+    """Thread 0 is preempted once, after each of its source lines in turn; thread 1 (a long batch of calls)
+    then runs to completion; thread 0 resumes.  -> (schedules run, first (schedule, results, expected))"""
+    from concurrent.futures import ThreadPoolExecutor
+    t_end = time.time() + budget_s
+    expected = alone(ops)
+    probe = in_child(lambda: run_schedule([ops[0]], []))
+    if probe is None:
+        return 0, None
+    schedules = [[[0, k], [1, 10 ** 9]] for k in range(0, probe[1][0] + 1)]
+    n = 0
+    with ThreadPoolExecutor(workers) as ex:
+        for j in range(0, len(schedules), workers):
+            if time.time() > t_end:
+                break
+            batch = schedules[j:j + workers]
+            for sch, res in zip(batch, ex.map(lambda sch: in_child(lambda: run_schedule(ops, sch), timeout=30),
+                                              batch)):
+                n += 1
+                if res is not None and res[0] != expected:
+                    return n, (sch, res[0], expected)
+    return n, None
+
+
 def in_fresh(ops, schedule, timeout: float = 30.0):
     """Run `run_schedule(ops, schedule)` in a FRESH interpreter (nothing of the library has been used
     yet: state the library builds on first use is built inside the scheduled calls). -> (results, lines)
